@@ -125,9 +125,21 @@ func genSchema() string {
 	return sb.String()
 }
 
+// verifGenExtra lets property files register further generated Gen/*.v files (file name -> generator) from init().
+var verifGenExtra = map[string]func() string{}
+
 func genMain(_ []string) int {
 	fmt.Println("=== FILE Schema.v")
 	fmt.Print(genSchema())
+	extra := make([]string, 0, len(verifGenExtra))
+	for n := range verifGenExtra {
+		extra = append(extra, n)
+	}
+	sort.Strings(extra)
+	for _, n := range extra {
+		fmt.Println("=== FILE " + n)
+		fmt.Print(verifGenExtra[n]())
+	}
 
 	return 0
 }
